@@ -335,3 +335,11 @@ Proof.
 Qed.
 
 End Width.
+
+(* non-vacuity: i8 sum over 4 lanes wraps; the value under the null is ignored *)
+Example ex_sum_lanes :
+  aggregate (sum_acc true 128) (2 ^ 2) (mkarr [127; 1; 100; 5; 6; 7] (Some [true; true; false; true; true; true])) = Some (-110).
+Proof. vm_compute. reflexivity. Qed.
+Example ex_sum_checked_prefix :
+  sum_checked true 128 (mkarr [127; 1; -1] None) = inr E_OVERFLOW /\ sum_checked true 128 (mkarr [127; -1; 1] None) = inl (Some 127).
+Proof. vm_compute. split; reflexivity. Qed.
